@@ -140,6 +140,7 @@ THEOREMS = [
     "Verif.C18.datetime_negative_refused",
     "Verif.C18.decode_sound",
     "Verif.C18.decode_complete",
+    "Verif.C18.datetime_roundtrip_total",
     "Verif.C18.legacy_frame_ranges",
     "Verif.C18.export_selection_frames",
     "Verif.C18.export_selection_index",
@@ -160,12 +161,15 @@ THEOREMS = [
     "Verif.C18.export_program_selection",
     "Verif.C18.program_establishes_hypotheses",
     "Verif.C18.program_reexport",
+    "Verif.C18.program_visible",
+    "Verif.C18.legacy_program_tags",
     "Verif.C18.kymo_frame_range",
     "Verif.C18.kymo_frame_range_ordered",
     "Verif.C18.export_tiff_no_images",
     "Verif.C18.export_tiff_all_or_nothing",
     "Verif.C18.export_tiff_page_count",
     "Verif.C18.export_tiff_roundtrip",
+    "Verif.C18.export_tiff_pixels",
     "Verif.C18.stack_export_is_mixin_export",
     "Verif.C18.software_tag_fixed_point",
     "Verif.C18.software_tag_keeps_original",
@@ -937,7 +941,10 @@ def check_written(case, obs, raw1, want, ref_times):
         if case["kind"] == "kymo":
             if d.get("Start pixel timestamp (ns)") != exp[0][0] or d.get("Stop pixel timestamp (ns)") != exp[0][1]:
                 return "metadata: start/stop pixel timestamps differ from the line ranges"
-        if not case["derive"]:
+        # the pixel dwell time is a property of the acquisition: frame slices and pixel crops of a scan do not change it
+        # (a scan left with a single pixel along the fast axis has none: finding F18a, export refused before this point)
+        dwell_kept = case["kind"] == "scan" and all(o[0] in ("frames", "frame", "cropxy", "tuple") for o in case["derive"]) and obs.get("fast_pixels", 0) >= 2
+        if not case["derive"] or dwell_kept:
             k = lay["k"]
             if not math.isclose(d.get("Pixel time (s)") or 0.0, k * case["dt"] * 1e-9, rel_tol=1e-9):
                 return f"metadata: pixel time {d.get('Pixel time (s)')} != {k * case['dt'] * 1e-9} (page {i})"
